@@ -12,10 +12,11 @@ PARTIAL (stated as `C20_scalar_full`, checked differentially only, see meta "par
   · no int64 overflow occurs in the Go code (the model computes in unbounded `Int`);
   · the final limbs are fully reduced (0 ≤ result < ℓ, limbs in [0, 2^21));
   hence also the byte-level statement  leNat (scMulAdd a b c) = (a·b + c) mod ℓ.
-The load side (12 limbs of a 32-byte string sum to its little-endian value) is `load_value`.
+With the real shift (`shrI`) the load side (`load_value`), the digit range after the last carry pass, the zero
+high limbs and the byte packing (`store_value`) ARE proved and assembled in `scMulAdd_bytes` etc.: the only
+hypothesis left is the range of the top limb, 0 ≤ s11 < 2^25.
 -/
-import DosModel.Proofs.Ed25519Sc
-import DosModel.Proofs.Ed25519Enc
+import DosModel.Proofs.Ed25519Bytes
 
 set_option exponentiation.threshold 600
 
@@ -80,6 +81,115 @@ theorem scReduce_congruent (shr : Shr) (s0 s1 s2 s3 s4 s5 s6 s7 s8 s9 s10 s11 s1
   rw [← scReduce_init_value]
   exact emod_eq_of_dvd_sub (runBlocks_preserves shr _ scReduce_blocks_preserve _)
 
+
+/-- **scMulAdd on bytes.**  For all 32-byte operands the result is the packing of a limb vector `r` whose limbs 0…10 are
+21-bit digits, whose limbs 12…23 are zero and whose value is ≡ (leNat a : Int) * leNat b + leNat c (mod ℓ) — all proved.  IF the top limb
+is in range (0 ≤ r.s11 < 2^25, the unproved overflow/reduction part) the 32 result bytes spell that value. -/
+theorem scMulAdd_bytes (a b c : Bytes) (ha : a.length = 32) (hb : b.length = 32) (hc : c.length = 32) :
+    ∃ r : L24,
+      scMulAdd shrI a b c = packLo shrI r.s0 r.s1 r.s2 r.s3 r.s4 r.s5 r.s6 r.s7 ++ packHi shrI r.s8 r.s9 r.s10 r.s11
+      ∧ Digits11 r ∧ HiZero r
+      ∧ value r % (ell : Int) = ((leNat a : Int) * leNat b + leNat c) % (ell : Int)
+      ∧ (0 ≤ r.s11 ∧ r.s11 < 33554432 →
+          (leNat (scMulAdd shrI a b c) : Int) = value r
+          ∧ (leNat (scMulAdd shrI a b c) : Int) % (ell : Int) = ((leNat a : Int) * leNat b + leNat c) % (ell : Int)) := by
+  have ea := unpack12_value a ha
+  have eb := unpack12_value b hb
+  have ec := unpack12_value c hc
+  simp only [unpack12, value12L] at ea eb ec
+  simp only [scMulAdd]
+  refine ⟨_, scMulAdd_store_eq shrI _, scMulAdd_final _ _ _ _ _ _ _ _ _ _ _ _ _ _ _ _ _ _ _ _ _ _ _ _ _ _ _ _ _ _ _ _ _ _ _ _, scMulAdd_hiZero shrI _ _ _ _ _ _ _ _ _ _ _ _ _ _ _ _ _ _ _ _ _ _ _ _ _ _ _ _ _ _ _ _ _ _ _ _, ?_, ?_⟩
+  · rw [← ea, ← eb, ← ec]; exact sc_congruent shrI _ _ _ _ _ _ _ _ _ _ _ _ _ _ _ _ _ _ _ _ _ _ _ _ _ _ _ _ _ _ _ _ _ _ _ _
+  · intro h11
+    rw [scMulAdd_store_eq]
+    refine ⟨packed_value _ (scMulAdd_final _ _ _ _ _ _ _ _ _ _ _ _ _ _ _ _ _ _ _ _ _ _ _ _ _ _ _ _ _ _ _ _ _ _ _ _) (scMulAdd_hiZero shrI _ _ _ _ _ _ _ _ _ _ _ _ _ _ _ _ _ _ _ _ _ _ _ _ _ _ _ _ _ _ _ _ _ _ _ _) h11, ?_⟩
+    rw [packed_value _ (scMulAdd_final _ _ _ _ _ _ _ _ _ _ _ _ _ _ _ _ _ _ _ _ _ _ _ _ _ _ _ _ _ _ _ _ _ _ _ _) (scMulAdd_hiZero shrI _ _ _ _ _ _ _ _ _ _ _ _ _ _ _ _ _ _ _ _ _ _ _ _ _ _ _ _ _ _ _ _ _ _ _ _) h11, ← ea, ← eb, ← ec]
+    exact sc_congruent shrI _ _ _ _ _ _ _ _ _ _ _ _ _ _ _ _ _ _ _ _ _ _ _ _ _ _ _ _ _ _ _ _ _ _ _ _
+
+/-- **scMul on bytes.**  For all 32-byte operands the result is the packing of a limb vector `r` whose limbs 0…10 are
+21-bit digits, whose limbs 12…23 are zero and whose value is ≡ (leNat a : Int) * leNat b (mod ℓ) — all proved.  IF the top limb
+is in range (0 ≤ r.s11 < 2^25, the unproved overflow/reduction part) the 32 result bytes spell that value. -/
+theorem scMul_bytes (a b : Bytes) (ha : a.length = 32) (hb : b.length = 32) :
+    ∃ r : L24,
+      scMul shrI a b = packLo shrI r.s0 r.s1 r.s2 r.s3 r.s4 r.s5 r.s6 r.s7 ++ packHi shrI r.s8 r.s9 r.s10 r.s11
+      ∧ Digits11 r ∧ HiZero r
+      ∧ value r % (ell : Int) = ((leNat a : Int) * leNat b) % (ell : Int)
+      ∧ (0 ≤ r.s11 ∧ r.s11 < 33554432 →
+          (leNat (scMul shrI a b) : Int) = value r
+          ∧ (leNat (scMul shrI a b) : Int) % (ell : Int) = ((leNat a : Int) * leNat b) % (ell : Int)) := by
+  have ea := unpack12_value a ha
+  have eb := unpack12_value b hb
+  simp only [unpack12, value12L] at ea eb
+  simp only [scMul]
+  refine ⟨_, scMul_store_eq shrI _, scMul_final _ _ _ _ _ _ _ _ _ _ _ _ _ _ _ _ _ _ _ _ _ _ _ _, scMul_hiZero shrI _ _ _ _ _ _ _ _ _ _ _ _ _ _ _ _ _ _ _ _ _ _ _ _, ?_, ?_⟩
+  · rw [← ea, ← eb]; exact scMul_congruent shrI _ _ _ _ _ _ _ _ _ _ _ _ _ _ _ _ _ _ _ _ _ _ _ _
+  · intro h11
+    rw [scMul_store_eq]
+    refine ⟨packed_value _ (scMul_final _ _ _ _ _ _ _ _ _ _ _ _ _ _ _ _ _ _ _ _ _ _ _ _) (scMul_hiZero shrI _ _ _ _ _ _ _ _ _ _ _ _ _ _ _ _ _ _ _ _ _ _ _ _) h11, ?_⟩
+    rw [packed_value _ (scMul_final _ _ _ _ _ _ _ _ _ _ _ _ _ _ _ _ _ _ _ _ _ _ _ _) (scMul_hiZero shrI _ _ _ _ _ _ _ _ _ _ _ _ _ _ _ _ _ _ _ _ _ _ _ _) h11, ← ea, ← eb]
+    exact scMul_congruent shrI _ _ _ _ _ _ _ _ _ _ _ _ _ _ _ _ _ _ _ _ _ _ _ _
+
+/-- **scAdd on bytes.**  For all 32-byte operands the result is the packing of a limb vector `r` whose limbs 0…10 are
+21-bit digits, whose limbs 12…23 are zero and whose value is ≡ (leNat a : Int) + leNat c (mod ℓ) — all proved.  IF the top limb
+is in range (0 ≤ r.s11 < 2^25, the unproved overflow/reduction part) the 32 result bytes spell that value. -/
+theorem scAdd_bytes (a c : Bytes) (ha : a.length = 32) (hc : c.length = 32) :
+    ∃ r : L24,
+      scAdd shrI a c = packLo shrI r.s0 r.s1 r.s2 r.s3 r.s4 r.s5 r.s6 r.s7 ++ packHi shrI r.s8 r.s9 r.s10 r.s11
+      ∧ Digits11 r ∧ HiZero r
+      ∧ value r % (ell : Int) = ((leNat a : Int) + leNat c) % (ell : Int)
+      ∧ (0 ≤ r.s11 ∧ r.s11 < 33554432 →
+          (leNat (scAdd shrI a c) : Int) = value r
+          ∧ (leNat (scAdd shrI a c) : Int) % (ell : Int) = ((leNat a : Int) + leNat c) % (ell : Int)) := by
+  have ea := unpack12_value a ha
+  have ec := unpack12_value c hc
+  simp only [unpack12, value12L] at ea ec
+  simp only [scAdd]
+  refine ⟨_, scAdd_store_eq shrI _, scAdd_final _ _ _ _ _ _ _ _ _ _ _ _ _ _ _ _ _ _ _ _ _ _ _ _, scAdd_hiZero shrI _ _ _ _ _ _ _ _ _ _ _ _ _ _ _ _ _ _ _ _ _ _ _ _, ?_, ?_⟩
+  · rw [← ea, ← ec]; exact scAdd_congruent shrI _ _ _ _ _ _ _ _ _ _ _ _ _ _ _ _ _ _ _ _ _ _ _ _
+  · intro h11
+    rw [scAdd_store_eq]
+    refine ⟨packed_value _ (scAdd_final _ _ _ _ _ _ _ _ _ _ _ _ _ _ _ _ _ _ _ _ _ _ _ _) (scAdd_hiZero shrI _ _ _ _ _ _ _ _ _ _ _ _ _ _ _ _ _ _ _ _ _ _ _ _) h11, ?_⟩
+    rw [packed_value _ (scAdd_final _ _ _ _ _ _ _ _ _ _ _ _ _ _ _ _ _ _ _ _ _ _ _ _) (scAdd_hiZero shrI _ _ _ _ _ _ _ _ _ _ _ _ _ _ _ _ _ _ _ _ _ _ _ _) h11, ← ea, ← ec]
+    exact scAdd_congruent shrI _ _ _ _ _ _ _ _ _ _ _ _ _ _ _ _ _ _ _ _ _ _ _ _
+
+/-- **scSub on bytes.**  For all 32-byte operands the result is the packing of a limb vector `r` whose limbs 0…10 are
+21-bit digits, whose limbs 12…23 are zero and whose value is ≡ (leNat a : Int) - leNat c (mod ℓ) — all proved.  IF the top limb
+is in range (0 ≤ r.s11 < 2^25, the unproved overflow/reduction part) the 32 result bytes spell that value. -/
+theorem scSub_bytes (a c : Bytes) (ha : a.length = 32) (hc : c.length = 32) :
+    ∃ r : L24,
+      scSub shrI a c = packLo shrI r.s0 r.s1 r.s2 r.s3 r.s4 r.s5 r.s6 r.s7 ++ packHi shrI r.s8 r.s9 r.s10 r.s11
+      ∧ Digits11 r ∧ HiZero r
+      ∧ value r % (ell : Int) = ((leNat a : Int) - leNat c) % (ell : Int)
+      ∧ (0 ≤ r.s11 ∧ r.s11 < 33554432 →
+          (leNat (scSub shrI a c) : Int) = value r
+          ∧ (leNat (scSub shrI a c) : Int) % (ell : Int) = ((leNat a : Int) - leNat c) % (ell : Int)) := by
+  have ea := unpack12_value a ha
+  have ec := unpack12_value c hc
+  simp only [unpack12, value12L] at ea ec
+  simp only [scSub]
+  refine ⟨_, scSub_store_eq shrI _, scSub_final _ _ _ _ _ _ _ _ _ _ _ _ _ _ _ _ _ _ _ _ _ _ _ _, scSub_hiZero shrI _ _ _ _ _ _ _ _ _ _ _ _ _ _ _ _ _ _ _ _ _ _ _ _, ?_, ?_⟩
+  · rw [← ea, ← ec]; exact scSub_congruent shrI _ _ _ _ _ _ _ _ _ _ _ _ _ _ _ _ _ _ _ _ _ _ _ _
+  · intro h11
+    rw [scSub_store_eq]
+    refine ⟨packed_value _ (scSub_final _ _ _ _ _ _ _ _ _ _ _ _ _ _ _ _ _ _ _ _ _ _ _ _) (scSub_hiZero shrI _ _ _ _ _ _ _ _ _ _ _ _ _ _ _ _ _ _ _ _ _ _ _ _) h11, ?_⟩
+    rw [packed_value _ (scSub_final _ _ _ _ _ _ _ _ _ _ _ _ _ _ _ _ _ _ _ _ _ _ _ _) (scSub_hiZero shrI _ _ _ _ _ _ _ _ _ _ _ _ _ _ _ _ _ _ _ _ _ _ _ _) h11, ← ea, ← ec]
+    exact scSub_congruent shrI _ _ _ _ _ _ _ _ _ _ _ _ _ _ _ _ _ _ _ _ _ _ _ _
+
+/-- scReduce: digits and zero high limbs of the result (its 64-byte load is not covered by `unpack12_value`) -/
+theorem scReduce_digits (s0 s1 s2 s3 s4 s5 s6 s7 s8 s9 s10 s11 s12 s13 s14 s15 s16 s17 s18 s19 s20 s21 s22 s23 : Int) :
+    Digits11 (scReduce_limbs shrI s0 s1 s2 s3 s4 s5 s6 s7 s8 s9 s10 s11 s12 s13 s14 s15 s16 s17 s18 s19 s20 s21 s22 s23)
+    ∧ HiZero (scReduce_limbs shrI s0 s1 s2 s3 s4 s5 s6 s7 s8 s9 s10 s11 s12 s13 s14 s15 s16 s17 s18 s19 s20 s21 s22 s23) :=
+  ⟨scReduce_final _ _ _ _ _ _ _ _ _ _ _ _ _ _ _ _ _ _ _ _ _ _ _ _, scReduce_hiZero shrI _ _ _ _ _ _ _ _ _ _ _ _ _ _ _ _ _ _ _ _ _ _ _ _⟩
+
+/-- **load**: the twelve load expressions cut a 32-byte string into limbs with the same little-endian value -/
+theorem load_value (a : Bytes) (h : a.length = 32) : value12L (unpack12 shrI a) = (leNat a : Int) :=
+  unpack12_value a h
+
+/-- **store**: limbs 0…10 21-bit digits, 0 ≤ s11 < 2^25 ⇒ the packed bytes spell Σ sᵢ·2^(21 i) -/
+theorem store_value (s : L24) (hd : Digits11 s) (h11 : 0 ≤ s.s11 ∧ s.s11 < 33554432) :
+    (leNat (scMulAdd_store shrI s) : Int) = value12 s.s0 s.s1 s.s2 s.s3 s.s4 s.s5 s.s6 s.s7 s.s8 s.s9 s.s10 s.s11 := by
+  rw [scMulAdd_store_eq]; exact pack_value s hd h11
+
 /-- the full scalar clause (not proved: needs int64-overflow freedom and full reduction) -/
 def C20_scalar_full : Prop :=
   ∀ a b c : Bytes, a.length = 32 → b.length = 32 → c.length = 32 →
@@ -133,5 +243,18 @@ example : (scUnmarshal (natLE 32 (ell - 1))).map scMarshal = .ok (natLE 32 (ell 
   scalar_roundtrip _ (natLE_length _ _) (by rw [leNat_natLE_of_lt 32 _ (by decide)]; decide)
 example : scMarshal (natLE 32 (ell + 5)) ≠ natLE 32 (ell + 5) :=
   (scalar_noncanonical_accepted _ (natLE_length _ _) (by rw [leNat_natLE_of_lt 32 _ (by decide)]; decide)).2.1
+
+example : ∃ r : L24, scMulAdd shrI (natLE 32 (ell - 1)) (natLE 32 (ell - 1)) (natLE 32 7)
+      = packLo shrI r.s0 r.s1 r.s2 r.s3 r.s4 r.s5 r.s6 r.s7 ++ packHi shrI r.s8 r.s9 r.s10 r.s11 ∧ Digits11 r :=
+  let ⟨r, h1, h2, _⟩ := scMulAdd_bytes _ _ _ (natLE_length _ _) (natLE_length _ _) (natLE_length _ _)
+  ⟨r, h1, h2⟩
+/-- the remaining hypothesis (top limb in range) holds on a concrete carry-heavy input -/
+example : 0 ≤ (scMulAdd_limbs shrI 2097151 2097151 2097151 2097151 2097151 2097151 2097151 2097151 2097151 2097151 2097151 33554431
+      2097151 2097151 2097151 2097151 2097151 2097151 2097151 2097151 2097151 2097151 2097151 33554431
+      2097151 2097151 2097151 2097151 2097151 2097151 2097151 2097151 2097151 2097151 2097151 33554431).s11
+    ∧ (scMulAdd_limbs shrI 2097151 2097151 2097151 2097151 2097151 2097151 2097151 2097151 2097151 2097151 2097151 33554431
+      2097151 2097151 2097151 2097151 2097151 2097151 2097151 2097151 2097151 2097151 2097151 33554431
+      2097151 2097151 2097151 2097151 2097151 2097151 2097151 2097151 2097151 2097151 2097151 33554431).s11 < 33554432 := by
+  decide
 
 end Dos.Props.C20Scalar
